@@ -642,3 +642,48 @@ pub fn replay(case: &Value, c06: bool, findings: &Findings) -> Option<Viol> {
     _ => None,
   }
 }
+
+/// Witness oracle shared with C13: cells of `depth` touched by the cone (lon, lat, r) that are not
+/// covered according to the bitmap `cov` (at most `limit` of them), with the reason.
+pub fn witness_misses(depth: u8, lon: f64, lat: f64, r: f64, cov: &[bool], limit: usize) -> Vec<(u64, String)> {
+  let tab = witness_tab(depth);
+  let c = unit_vec(lon, lat);
+  let m = touch_margin(r);
+  let thr_touch = chord2_of_angle(r - m);
+  let thr_cull = chord2_of_angle((r + max_c2v(depth) + 1e-9).min(PI));
+  let cull_all = r + max_c2v(depth) + 1e-9 >= PI;
+  let (px, py) = ref_proj(lon, lat);
+  let mut out = vec![];
+  for h in 0..n_hash(depth) {
+    if cov[h as usize] {
+      continue;
+    }
+    if !cull_all && chord2(&tab.centers[h as usize], &c) > thr_cull {
+      continue;
+    }
+    let mut why: Option<String> = None;
+    if r > 0.0 && outside(depth, h, px, py) <= -1e-12 {
+      why = Some("the centre lies strictly inside the cell".into());
+    } else {
+      let w = &tab.wit[(h as usize) * WK * WK..(h as usize + 1) * WK * WK];
+      for (k, p) in w.iter().enumerate() {
+        if chord2(p, &c) <= thr_touch {
+          let (l, b) = lonlat_of(p);
+          why = Some(format!("its point #{} ({:e}, {:e}) is at {:e} rad from the centre, radius {:e}", k, l, b, ang_dist_vec(p, &c), r));
+          break;
+        }
+      }
+    }
+    if let Some(w) = why {
+      out.push((h, w));
+      if out.len() >= limit {
+        break;
+      }
+    }
+  }
+  out
+}
+
+pub fn bitmap_of(map: &RangeMap, depth: u8) -> Vec<bool> {
+  covered_bitmap(map, depth)
+}
